@@ -389,16 +389,32 @@ def run(ctx):
     # the leaves' own trees are drawn from an unseeded generator there, so several cases are needed to see a given outcome
     n_x = 40 if quick else 600
     n_corner = 16 if quick else 120
-    for k in range(n_x + n_corner):
+    # ... and the last `n_dep` cases ask for structured decomposability WITHOUT Chow-Liu leaves on few rows of functionally dependent
+    # columns (copies, negations, conjunctions): partitions in which a not-yet-conditioned variable is constant while it varies in a
+    # sibling partition — the conjunction variables must still depend on the depth only
+    n_dep = 14 if quick else 150
+    for k in range(n_x + n_corner + n_dep):
         rs = np.random.RandomState(np_seed(ctx.sub_rng('xpc', k)))
-        corner = k >= n_x
-        nv = int(rs.choice([3, 4, 5])) if corner else int(rs.choice([2, 3, 4, 5, 8, 10]))
-        nr = int(rs.choice([60, 150, 300]))
-        X = binary_data(rs, nr, nv, fams[k % 4])
-        det = bool(rs.rand() < 0.4); sd = bool(corner or rs.rand() < 0.6); use_clt = bool(corner or det or rs.rand() < 0.7)
-        cfg = dict(det=det, sd=sd, min_part_inst=int(rs.choice([5, 10, 30])), conj_len=(nv if (corner or (k % 4 == 1 and nv <= 5)) else int(rs.choice([1, 2, 3]))), arity=int(rs.choice([2, 3, 4])),
+        corner = n_x <= k < n_x + n_corner
+        dep = k >= n_x + n_corner
+        nv = int(rs.choice([3, 4, 5])) if corner else int(rs.choice([6, 7, 8])) if dep else int(rs.choice([2, 3, 4, 5, 8, 10]))
+        nr = int(rs.choice([30, 50, 80])) if dep else int(rs.choice([60, 150, 300]))
+        if dep:
+            B = (rs.rand(nr, 3) < rs.uniform(0.3, 0.7, size=3))
+            cols = [B[:, 0], B[:, 1], B[:, 2]]
+            while len(cols) < nv:
+                a, b = cols[int(rs.randint(len(cols)))], cols[int(rs.randint(len(cols)))]
+                cols.append([a, ~a, a & b, a | b, a ^ b][int(rs.randint(5))])
+            X = np.stack([cols[i] for i in rs.permutation(nv)], axis=1).astype(np.float32)
+            ctx.count('xpc-sd-without-clt-on-dependent-columns')
+        else:
+            X = binary_data(rs, nr, nv, fams[k % 4])
+        det = bool(rs.rand() < 0.4) and not dep; sd = bool(corner or dep or rs.rand() < 0.6); use_clt = bool(corner or det or rs.rand() < 0.7) and not dep
+        cfg = dict(det=det, sd=sd, min_part_inst=(int(rs.choice([3, 5])) if dep else int(rs.choice([5, 10, 30]))), conj_len=(nv if (corner or (k % 4 == 1 and nv <= 5)) else int(rs.choice([1, 2, 3]))), arity=int(rs.choice([2, 3, 4])),
                    use_clt=use_clt, random_seed=int(rs.randint(1000)))
         ens = (k % 3 == 2) and not corner
+        if dep and ens:
+            pass
         rep = dict(kind='c04', learner='learn_expc' if ens else 'learn_xpc', data=X.astype(int).tolist(), cfg=cfg)
         utils = None
         rec = XD.Recorder()
